@@ -71,10 +71,10 @@ PROPS["C10"] = {
 }
 PROPS["C20"] = {
   "engine": "sim_history", "variant": "asan", "level": "exploration",
-  "parts": [{"args": ["--mode", "c20"]}],
+  "parts": [{"args": ["--mode", "c20"]}, {"engine": "sim_cli", "variant": "cov", "args": ["--mode", "c20cli", "--runs", "69"], "budget_quick": 40, "budget_thorough": 120}],
   "budget_quick": 60, "budget_thorough": 600,
-  "rule": "one run = a seeded operation history over a compiler, the rule set it produces (and a saved+loaded copy), and up to four scanners: compile-time defines of all four types incl. duplicates and NULL strings; rules-level and scanner-level defines incl. unknown identifiers, wrong types and NULL; scanner creation; scans through each scanner and rules-level scans. Oracle: three-level environment model (compile-time -> rule-set -> per-scanner snapshot at creation) predicting every define's return code and the verdict of 13 modelled probe rules (==, arithmetic, boolean, float range, contains/matches, `at`, `in`, `of` quantifier, loop bound, variable-vs-variable, an external named like a non-imported module) plus 28 literal-twin rules: each t_* rule is also compiled with every external textually replaced by a literal of its current value and the twin's verdict on the same buffer is the expectation (#a in, N of them in/at, for N of, enumerations, bitwise, shifts, % and \\, float arithmetic, string ordering and (i)startswith/(i)endswith/icontains/iequals/matches, uintN(), @a[i]/!a[i], defined, unary minus, and one single-use `$a at <expr>` rule per arithmetic operator because that is where the compile-time value of the expression is consumed); after every define ALL scanners and a rules-level scan are re-checked (isolation). Failing histories are shrunk. Non-trivial = all histories; distinct = distinct operation/value sequence.",
-  "components": {"real": REAL_LIB, "stub": ["reference environment model (oracle)"]},
+  "rule": "one run = a seeded operation history over a compiler, the rule set it produces (and a saved+loaded copy), and up to four scanners: compile-time defines of all four types incl. duplicates and NULL strings; rules-level and scanner-level defines incl. unknown identifiers, wrong types and NULL; scanner creation; scans through each scanner and rules-level scans. Oracle: three-level environment model (compile-time -> rule-set -> per-scanner snapshot at creation) predicting every define's return code and the verdict of 13 modelled probe rules (==, arithmetic, boolean, float range, contains/matches, `at`, `in`, `of` quantifier, loop bound, variable-vs-variable, an external named like a non-imported module) plus 28 literal-twin rules: each t_* rule is also compiled with every external textually replaced by a literal of its current value and the twin's verdict on the same buffer is the expectation (#a in, N of them in/at, for N of, enumerations, bitwise, shifts, % and \\, float arithmetic, string ordering and (i)startswith/(i)endswith/icontains/iequals/matches, uintN(), @a[i]/!a[i], defined, unary minus, and one single-use `$a at <expr>` rule per arithmetic operator because that is where the compile-time value of the expression is consumed); after every define ALL scanners and a rules-level scan are re-checked (isolation). Failing histories are shrunk. Second part, through the command line: `-d id=value` for 23 values of all four types (zero-padded, negative, beyond 32 bits, INT64_MAX; floats; booleans; strings that look almost like numbers) at the three levels the CLI offers (yara RULES, yarac -d, yara -C -d over a placeholder) against the same rules with the value written as a literal. Non-trivial = all histories; distinct = distinct operation/value sequence.",
+  "components": {"real": REAL_LIB + ["cli/yara.c, cli/yarac.c, cli/common.c, cli/args.c (second part)"], "stub": ["reference environment model (oracle)"]},
   "assumptions": ["integer vs boolean at scanner level is deliberately unchecked (same object type in the implementation, undocumented)", "NULL string values are not passed at scanner level (unspecified)", "save+load is skipped once a rules-level string define happened (that history aborts in save: C08 finding)"],
 }
 
